@@ -22,6 +22,7 @@ KINDS = {
     "int": {"type": "integer"}, "num": {"type": "number"}, "bool": {"type": "boolean"},
     "enum_ab": {"type": "string", "enum": ["a", "b"]}, "enum_a": {"type": "string", "enum": ["a"]}, "enum_bc": {"type": "string", "enum": ["b", "c"]},
     "ienum_12": {"type": "integer", "enum": [1, 2]}, "ienum_1": {"type": "integer", "enum": [1]},
+    "enum_dash": {"type": "string", "enum": ["done", "in-progress"]}, "enum_under": {"type": "string", "enum": ["done", "in_progress", "failed"]}, "enum_a_dash": {"type": "string", "enum": ["a-b"]}, "enum_a_under": {"type": "string", "enum": ["a_b"]},
     "any": {}, "arr_str": {"type": "array", "items": {"type": "string"}}, "arr_int": {"type": "array", "items": {"type": "integer"}}, "arr_num": {"type": "array", "items": {"type": "number"}},
     "const_a": {"const": "a"}, "const_b": {"const": "b"},
     "obj_x": {"type": "object", "properties": {"x": {"type": "string"}}}, "obj_y": {"type": "object", "properties": {"y": {"type": "integer"}}},
@@ -33,7 +34,7 @@ NARROW = {frozenset(("int", "num")): "int", frozenset(("str", "date")): "date", 
           frozenset(("arr_int", "arr_num")): "arr_int"}
 MANIFEST_KIND = {"str": "StringProperty", "date": "DateProperty", "datetime": "DateTimeProperty", "int": "IntProperty", "enum_ab": ("EnumProperty", "LiteralEnumProperty"), "enum_a": ("EnumProperty", "LiteralEnumProperty"),
                  "ienum_12": ("EnumProperty", "LiteralEnumProperty"), "ienum_1": ("EnumProperty", "LiteralEnumProperty"), "arr_int": "ListProperty"}
-PROBES = ["a", "b", "c", "zz", 1, 2, 9, 1.5, True, "2020-01-02", "2020-01-02T03:04:05+00:00", ["s"], [1], [1.5], {"x": "v"}, {"y": 3}, {"k": "kk"}, None, "00000000-0000-4000-8000-0000000000aa"]
+PROBES = ["a", "b", "c", "zz", "done", "in-progress", "in_progress", "failed", "a-b", "a_b", 1, 2, 9, 1.5, True, "2020-01-02", "2020-01-02T03:04:05+00:00", ["s"], [1], [1.5], {"x": "v"}, {"y": 3}, {"k": "kk"}, None, "00000000-0000-4000-8000-0000000000aa"]
 
 
 def effective(pi: dict):
@@ -90,6 +91,29 @@ def main() -> int:
                 j = run.job(d, want=["manifest"], cfg={"literal_enums": le}, plan={"fn": "c15", "args": {"cases": list(cases), "probes": PROBES}})
                 info[j["id"]] = ("pairs", le, cases)
                 jobs.append(j)
+    # (a) hand-built compositions: where `required` and `properties` live in different (inline / referenced) members
+    P = lambda **kw: {"type": "object", "properties": {k: {"type": v} for k, v in kw.items()}}  # noqa: E731
+    compo = {
+        "Base": dict(P(id="integer", name="string"), required=["name"]),
+        "RequiredAfter": {"allOf": [P(id="integer"), {"required": ["id"]}]},
+        "RequiredBefore": {"allOf": [{"required": ["id"]}, P(id="integer")]},
+        "ThreeMembers": {"allOf": [P(a="string"), P(b="integer"), {"required": ["a", "b"]}]},
+        "OwnPropertyRequiredByMember": {"type": "object", "properties": {"own": {"type": "string"}}, "allOf": [{"required": ["own"]}]},
+        "TopLevelRequiresMemberProperty": {"required": ["m"], "allOf": [P(m="string")]},
+        "RefThenRequired": {"allOf": [{"$ref": "#/components/schemas/Base"}, {"required": ["id"]}]},
+        "RequiredThenRef": {"allOf": [{"required": ["id"]}, {"$ref": "#/components/schemas/Base"}]},
+        "RefAndInlineSameMember": {"allOf": [{"$ref": "#/components/schemas/Base"}, dict(P(extra="boolean"), required=["extra", "id"])]},
+        "ChainChild": {"allOf": [{"$ref": "#/components/schemas/RefThenRequired"}, dict(P(more="string"), required=["more"])]},
+        "TwoRefs": {"allOf": [{"$ref": "#/components/schemas/Base"}, {"$ref": "#/components/schemas/RequiredAfter"}]},
+    }
+    for order in (0, 1):
+        for le in (False, True):
+            d = docs.base_doc("3.0.3", "Compositions")
+            keys = list(compo) if order == 0 else list(reversed(compo))
+            d["components"]["schemas"] = {k: docs.clone(compo[k]) for k in keys}
+            j = run.job(d, want=["manifest"], cfg={"literal_enums": le}, plan={"fn": "models", "args": {"seed": seed(), "per_model": 8, "import": False}})
+            info[j["id"]] = ("random", False, {"handbuilt_compositions", f"order{order}"})
+            jobs.append(j)
     # (a) random documents with allOf
     for i in range(60 if quick else 1500):
         d, feats = docs.random_doc(("C15", seed(), i), n_schemas=r.randint(5, 12), n_ops=0)
@@ -186,6 +210,13 @@ def main() -> int:
             ox = {json.dumps(a["value"], sort_keys=True): (("exc",) if x.get("exc") else ("ok", json.dumps(x.get("e"), sort_keys=True), json.dumps((x.get("attrs") or {}).get("p"), sort_keys=True))) for a, x in obs.get((ci, "X"), []) if not x.get("action_exc")}
             oy = {json.dumps(a["value"], sort_keys=True): (("exc",) if x.get("exc") else ("ok", json.dumps(x.get("e"), sort_keys=True), json.dumps((x.get("attrs") or {}).get("p"), sort_keys=True))) for a, x in obs.get((ci, "Y"), []) if not x.get("action_exc")}
             ev.count("decode_probes_compared", len(ox))
+            # conjunction soundness where the generated type validates (enums): an accepted value must be valid for *both* members
+            if px["kind"] in ("EnumProperty", "LiteralEnumProperty") and "enum" in KINDS[k1] and "enum" in KINDS[k2]:
+                for probe, o in ox.items():
+                    pv = json.loads(probe).get("p")
+                    if o[0] == "ok" and pv is not None and not (pv in KINDS[k1]["enum"] and pv in KINDS[k2]["enum"]):
+                        vd.violation(f"accepts_value_invalid_for_a_member:{pairkey}", f"allOf over {k1}/{k2} accepts {pv!r}, which {k1 if pv not in KINDS[k1]['enum'] else k2} does not list", w)
+                        break
             import re as _re
             norm = lambda t: tuple(_re.sub(r'"cls": "[^"]*"', '"cls": "_"', s) if isinstance(s, str) else s for s in t)  # noqa: E731
             for probe in ox:
